@@ -35,6 +35,12 @@ def run(pid, ctx):
     except facts.AnchorMissing as e:
         ctx.anchor_missing("ANCHOR", str(e))
         return ctx.finish(explanation="a rule could not find its anchor: " + str(e))
+    except Exception as e:  # noqa: BLE001 - a rule met code it cannot read: no verdict can be given, which is reported (fail closed), never a bare traceback
+        import traceback
+        tb = traceback.extract_tb(e.__traceback__)
+        where = "%s:%d" % (os.path.basename(tb[-1].filename), tb[-1].lineno) if tb else "?"
+        ctx.anchor_missing("ENGINE", "a rule could not read the code it is anchored in (%s: %s at %s)" % (type(e).__name__, str(e)[:120], where))
+        return ctx.finish(explanation="a rule could not read the code it is anchored in")
 
 
 PANIC_TEXT = ("every Assert terminator (overflow, division, bounds) and every call of an external routine from the "
@@ -48,6 +54,12 @@ EXT_ASSUME = ("external crates (std, byteorder, encoding_rs, uuid, cfb internals
 
 @prop("C09")
 def c09(ctx):
+    from .rules import codec as _codec_ru
+    ctx.rule("REF-UNSIGNED", "a string reference is read as an unsigned quantity of two or three bytes and never passes through a narrower or signed type: a dangling reference "
+                             "of a corrupted file stays a positive number that the pool answers with the empty string")
+    _codec_ru.ref_zero_extended(ctx, "REF-UNSIGNED")
+    from .rules import exact as _exact_tn
+    _exact_tn.table_name_gate(ctx)
     prog = ctx.prog
     inv = inventory(prog)
     ctx.rule("PANIC", PANIC_TEXT)
@@ -68,8 +80,10 @@ def c09(ctx):
     gates.join_more(ctx)
     # ... and the compound-file layer panics on entry names holding \ : ! — the stream API must not let such a name through
     from .rules import streams as _streams
-    ctx.rule("NAME-1", "streamname::is_valid refuses the characters a container entry name cannot hold and the code points the name packing itself produces")
+    ctx.rule("NAME-1", "streamname::is_valid refuses the characters a container entry name cannot hold, the code points the name packing itself produces, and every name "
+                       "whose encoded form has more than 31 UTF-16 units (the compound-file layer asserts these and checks none of them)")
     _streams.name_reserved(ctx, "NAME-1")
+    _streams.name_limit(ctx, "NAME-1")
     ctx.assume(EXT_ASSUME)
     return ctx.finish(explanation="panic-edge inventory over MIR of msi and msi_ffi, reachability from every exported function; "
                       "each site discharged by a guard rule, justified, or reported; sized allocations bounded (ALLOC-BOUND); every loop cycle consumes from a finite "
@@ -141,6 +155,8 @@ def c19(ctx):
     from .rules import expr
     expr.run_c19(ctx)
     expr.run_query_display(ctx)
+    from .rules import exact as _exact
+    _exact.value_display(ctx)
     return ctx.finish(explanation="finite decision over all (parent operator, side, child operator) triples using the bracket model extracted "
                       "from the MIR of Ast::format_with_precedence and the ladder parsed from examples/msiquery.pest; no expression is printed")
 
@@ -194,6 +210,9 @@ def c12(ctx):
     gates.join_more(ctx)
     from .rules import relational
     relational.run(ctx)
+    from .rules import expr as _expr, exact as _exact
+    _expr.op_typed(ctx)
+    _exact.exact_column_lookup(ctx)
     inv = inventory(prog)
     ctx.rule("PANIC(select)", PANIC_TEXT)
     entries = [prog.fn("msi::internal::query::Select::exec"), prog.fn("msi::internal::package::Package::<F>::select_rows")]
@@ -263,6 +282,10 @@ def c01(ctx):
     _propset.summary_ids(ctx)
     _propset.prop_all(ctx)
     _codepage.run(ctx)
+    from .rules import exact as _exact
+    _exact.lpstr_exact(ctx)
+    from .rules import schema as _schema
+    _schema.sep1(ctx)
     from .rules import errs as _errs
     _errs.io_exact(ctx)
     from .rules import schema, streams
@@ -303,6 +326,8 @@ def c10(ctx):
 
 @prop("C06")
 def c06(ctx):
+    from .rules import dml as _dml_cs
+    _dml_cs.catalog_schema(ctx)
     from .rules import schema
     schema.table_bits(ctx)
     schema.bits_disjoint(ctx)
@@ -317,12 +342,21 @@ def c06(ctx):
     dml.limit_w(ctx)
     _eam.run(ctx)
     _codec.pool_codec(ctx)
+    # a definition is accepted only if its catalog rows pass Column::is_valid_value: what the gate lets through must be storable (a bound of i32::MIN is the null pattern)
+    from .rules import validity as _validity
+    _validity.info_valid(ctx)
     return ctx.finish(explanation="pack/unpack constants of the column type word, disjointness, attribute/position symmetry of the _Validation row between writer and reader, "
                       "separator guard, category spelling tables. Equality of the reopened schema for all column lists is not decided")
 
 
 @prop("C02")
 def c02(ctx):
+    from .rules import codec as _codec_ru
+    ctx.rule("REF-UNSIGNED", "a string reference is read as an unsigned quantity of two or three bytes and never passes through a narrower or signed type: a dangling reference "
+                             "of a corrupted file stays a positive number that the pool answers with the empty string")
+    _codec_ru.ref_zero_extended(ctx, "REF-UNSIGNED")
+    from .rules import dml as _dml_cs
+    _dml_cs.catalog_schema(ctx)
     from .rules import schema, codec
     codec.cell_codec(ctx)
     codec.pool_codec(ctx)
@@ -345,6 +379,7 @@ def c02(ctx):
     from .rules import codepage as _codepage
     _codepage.run(ctx)
     flush.dirty1(ctx)
+    flush.dirty2(ctx)
     from .rules import dml
     dml.limits(ctx)
     return ctx.finish(explanation="reader-side structure: cell widths, offset-binary constants, column-major nesting, reference-width threading, pool header bit and long-string escape, "
@@ -353,6 +388,8 @@ def c02(ctx):
 
 @prop("C07")
 def c07(ctx):
+    from .rules import exact as _exact_ll
+    _exact_ll.language_list_total(ctx)
     from .rules import dml, validity
     dml.gate1(ctx)
     dml.gate2(ctx)
@@ -392,6 +429,8 @@ def c05(ctx):
     codec.pool_codec(ctx)
     codec.codec_e(ctx)
     _codepage.flow_rules(ctx)
+    schema.sep1(ctx)
+    flush.close3(ctx)
     schema.ins1(ctx, fns=("msi::internal::query::Insert::exec",), floor=3)
     return ctx.finish(explanation="necessary conditions for unique, ordered keys and valid cells: key awareness of every function that creates cells and rewrites rows, "
                       "duplicate tests before the keyed inserts, validation before creation, key-ordered emission. The invariant over all histories is not decided")
@@ -413,6 +452,11 @@ def c08(ctx):
     codec.pool_load(ctx)
     codec.cell_codec(ctx)
     codec.codec_e(ctx)
+    from .rules import codepage as _codepage, exact as _exact
+    _codepage.flow_rules(ctx)
+    dml.gate1(ctx)
+    dml.gate2(ctx)
+    _exact.decref_exact(ctx)
     return ctx.finish(explanation="reference pairing (release on delete, release-then-acquire on update, who-may-call for the pool counters, rows deleted before a table "
                       "stream is removed), catalog symmetry of create/drop, agreement of the two pool writers, cell codec widths and constants, no live empty entry. "
                       "That every refcount equals the number of referring cells after every history is not decided")
@@ -432,6 +476,11 @@ def c20(ctx):
     _codec.short_ref_bound(ctx, "LIMIT-SYM")
     _codec.ref_zero_extended(ctx, "LIMIT-SYM")
     _dml.rows_loaded(ctx)
+    # a name longer than the catalog allows is refused by the width test of Column::is_valid_value on the catalog rows; capacity is freed again only if a dropped
+    # table's cells are released
+    from .rules import validity as _validity
+    _validity.info_valid(ctx)
+    _dml.pairs(ctx)
     from .rules import flush as _flush
     _flush.dirty1(ctx)
     from .rules import streams as _streams
@@ -463,7 +512,11 @@ def c03(ctx):
     from .rules import flush, codec as _codec, expr as _expr
     eam.run(ctx)
     _codec.codec_e(ctx)
+    _codec.pool_codec(ctx)
     _expr.run_c13(ctx)
+    from .rules import exact as _exact
+    _exact.exact_column_lookup(ctx)
+    _exact.rows_len(ctx)
     flush.dirty1(ctx)
     flush.dirty2(ctx)
     ctx.note("NOT decided: which rows a predicate selects, the values of updated cells, equality with a relational model over histories. Only the structural necessary "
